@@ -18,6 +18,8 @@ def search(rng, tier, broken, cases):
     S = SS.search_c04(rng, 36 if tier == "quick" and not broken else 360)
     import dtypesearch
     dtypesearch.search_dtype(rng, 12 if tier == "quick" and not broken else 60, ['steps'], pid="C04", S=S)   # same numbers typed int64 vs float64
+    import implsearch as _IS
+    _IS.refused_then_retry(S, "C04", rng, 9 if tier == "quick" and not broken else 54)
     return S.violations, S.stats()
 
 
